@@ -149,6 +149,20 @@ func (blk *BtcBlock) proof(idx int) []byte {
 
 func (blk *BtcBlock) depth() int { return len(blk.levels) - 1 }
 
+// aliasIndex returns another position under which transaction idx verifies with its genuine path
+// (Bitcoin pairs the last node of an odd-sized level with itself, so flipping that level's bit
+// changes nothing), or -1 when there is none.
+func (blk *BtcBlock) aliasIndex(idx int) int {
+	i := idx
+	for lvl := 0; lvl < len(blk.levels)-1; lvl++ {
+		if i^1 >= len(blk.levels[lvl]) {
+			return idx ^ (1 << uint(lvl))
+		}
+		i >>= 1
+	}
+	return -1
+}
+
 func (blk *BtcBlock) indexOf(txid []byte) int {
 	for i, t := range blk.Txs {
 		if bytes.Equal(t.Txid, txid) {
